@@ -69,7 +69,7 @@ class C08(Check):
         "scaffolds or none; bpt {1,1.5,2,3.3,4,6}; per scaffold texel count floor or ceil (0 = absent, only possible for sub-texel scaffolds), bait "
         "[1, floor(n*bpt)]; both map orders; all unpainted / all painted. Precondition: last contig of every mapped scaffold >= bpt. Oracle "
         "unpainted: only the primary assembly, name->rows equal to the input, cuts=breaks=joins=0, no haplotig assembly. Painted: same rows "
-        "per scaffold, mapped scaffolds named <prefix>1..k by non-increasing size, absent ones keep their name. non-trivial = map whose bait end "
+        "per scaffold, mapped scaffolds named <prefix>1..k by non-increasing size (prefix SUPER_ by constructor, or Chr assigned afterwards when the map is in reverse order; a second request to the same object gives the same result), absent ones keep their name. non-trivial = map whose bait end "
         "differs from the scaffold end for at least one scaffold, or with an absent scaffold"
         " scaffold_2 also as three 1-bp contigs (gap, then abutting / gapped pair); bpt 6."
     )
@@ -108,8 +108,10 @@ class C08(Check):
         # D9 classifier: the bait of some mapped scaffold does not reach its last contig at all
         sliver = any(n and ln - math.floor(n * bpt) >= last_contig_len(rows) for (_, rows), n, ln in zip(inp, counts, lengths))
         tag = "/bait-misses-last-contig" if sliver else ""
+        # painted maps: default prefix through the constructor, or another prefix assigned after construction
+        prefix, via_setter = ("Chr", True) if painted and order else ("SUPER_", False)
         try:
-            ba, out, _ = pv.remap(inp, pvspec)
+            ba, out, _ = pv.remap(inp, pvspec, prefix=prefix, prefix_via_setter=via_setter)
         except Exception as e:  # noqa: BLE001
             ctx.violation(f"null-map-raises:{type(e).__name__}{tag}", case, repr(e)[:500])
             return
@@ -138,16 +140,21 @@ class C08(Check):
                     errs.append(("absent-scaffold-differs", f"{a}: {gd.get(a)!r} expected {want[a]!r}"))
             supers = [(n, rows) for n, rows in got_rows if n not in absent]
             names = [n for n, _ in supers]
-            if sorted(names) != [f"SUPER_{i + 1}" for i in range(len(mapped))]:
+            if sorted(names) != [f"{prefix}{i + 1}" for i in range(len(mapped))]:
                 errs.append(("painted-names", f"{names!r} for {len(mapped)} painted scaffolds"))
             else:
                 if sorted(map(repr, (rows for _, rows in supers))) != sorted(repr(want[m]) for m in mapped):
                     errs.append(("painted-content-differs", f"got {supers!r} expected {[want[m] for m in mapped]!r}"))
                 by = dict(supers)
-                sizes = [sum(r[3] - r[2] + 1 for r in by[f"SUPER_{i + 1}"] if r[0] == "F") for i in range(len(mapped))]
-                sizes_g = [sum((r[3] - r[2] + 1) if r[0] == "F" else r[1] for r in by[f"SUPER_{i + 1}"]) for i in range(len(mapped))]
+                sizes = [sum(r[3] - r[2] + 1 for r in by[f"{prefix}{i + 1}"] if r[0] == "F") for i in range(len(mapped))]
+                sizes_g = [sum((r[3] - r[2] + 1) if r[0] == "F" else r[1] for r in by[f"{prefix}{i + 1}"]) for i in range(len(mapped))]
                 if any(sizes[i] < sizes[i + 1] for i in range(len(sizes) - 1)) and any(sizes_g[i] < sizes_g[i + 1] for i in range(len(sizes_g) - 1)):
                     errs.append(("painted-rank-not-by-size", f"{sizes!r}"))
+        if painted and not errs:
+            # asking the same BuildAssembly again gives the same names
+            again = pv.out_spec(ba.assemblies_with_scaffolds_fused())
+            if again != ospec:
+                errs.append(("painted-second-request-differs", f"{[n for n, _ in again.get(None, [])]!r} after {[n for n, _ in got]!r}"))
         for klass, detail in errs[:2]:
             ctx.violation(klass + tag, case, detail)
         ctx.outcome(h64((ospec, st.cuts, st.breaks, st.joins)))
